@@ -607,6 +607,7 @@ def C10(rep, prog, tier):
     _run(rep, parser_rules.reject, ex, g)
     _run(rep, parser_rules.fresh_results, ex)
     _run(rep, parser_rules.queries_forward, ex)
+    _run(rep, parser_rules.wrapper_chain, ex)
 
 
 def C06(rep, prog, tier):
